@@ -56,6 +56,11 @@ def run(R):
                      "division has a non-zero constant divisor or is dominated by a test of the divisor against zero (weights may be "
                      "0 or 1 exactly: a quotient by `1 - p` is NaN for a certain seed and silently drops its derivative)")
     r5_r6(R)
+    R.rule("C07-R9", "the budgeted and the unbudgeted twin address the shared caches alike: for every pair (f, try_f) that reads or writes the same "
+                     "cache field of the manager (apply_cache, negate_cache, unique_table), the keys are built from the operands in the same way - "
+                     "component by component the same expression shape (which parameter, which cast, which comparison). A key that encodes the "
+                     "operator differently in one twin makes `try_apply(a, b, And)` hit the entry `apply(a, b, Or)` wrote")
+    r9(R)
     R.rule("C07-R8", "decision nodes are built only through the canonicalising path: the raw node constructor is called from normalize_to "
                      "(wrapping for a higher vtree node) only, unique_d (compress + trim + unique table) from apply_same_vtree, negate and "
                      "normalize_to only, and compress from unique_d only - a shortcut that assembles a partition elsewhere bypasses the "
@@ -453,3 +458,103 @@ def _div_guarded(b, bb, divisor, G):
             return True, None
     return False, ("the divisor is a runtime value (a weight or a count) and no dominating test excludes zero: for a seed with probability exactly 1 "
                    "(negative weight 0) the quotient is NaN or infinite and the derivative is lost")
+
+
+
+def _shape(x, op, depth=0):
+    """expression shape of an operand: parameters by name, casts, comparisons, calls - enough to tell `op as u8` from `(op == And) as u8`"""
+    if depth > 6:
+        return "..."
+    if op.get("k") == "const":
+        return "const"
+    pl = F.op_place(op)
+    if pl is None:
+        return "?"
+    proj = "".join("." + str(e.get("n", e["k"])) if e["k"] == "field" else ("*" if e["k"] == "deref" else "") for e in pl["p"])
+    l = pl["l"]
+    if 1 <= l <= x.nargs:
+        return "param:%s%s" % (x.local_name(l) or l, proj)
+    ds = [d for d in x.defs().get(l, []) if d[0] in ("assign", "call")]
+    if len(ds) != 1:
+        if not ds or depth > 3:
+            return "phi" + proj
+        alts = set()
+        for d in ds:
+            if d[0] == "call":
+                alts.add("%s(%s)" % (d[2].name(), ",".join(_shape(x, a, depth + 2) for a in d[2].args)))
+            else:
+                alts.add(_shape_rv(x, d[3], depth + 2))
+        return "{%s}%s" % ("|".join(sorted(alts)), proj)
+    d = ds[0]
+    if d[0] == "call":
+        return "%s(%s)%s" % (d[2].name(), ",".join(_shape(x, a, depth + 1) for a in d[2].args), proj)
+    if d[0] != "assign":
+        return "?" + proj
+    return _shape_rv(x, d[3], depth) + proj
+
+
+def _shape_rv(x, rv, depth):
+    proj = ""
+    if rv["rv"] in ("use",):
+        return _shape(x, rv["op"], depth + 1) + proj
+    if rv["rv"] == "cast":
+        return "cast(%s)" % _shape(x, rv["op"], depth + 1)
+    if rv["rv"] == "discriminant":
+        return "discr(%s)" % _shape(x, {"k": "copy", "pl": rv["pl"]}, depth + 1)
+    if rv["rv"] in ("binop", "checked_binop"):
+        return "%s(%s,%s)" % (rv["op"], _shape(x, rv["a"], depth + 1), _shape(x, rv["b"], depth + 1))
+    if rv["rv"] == "unop":
+        return "%s(%s)" % (rv.get("op"), _shape(x, rv.get("a") or rv.get("operand") or {}, depth + 1))
+    if rv["rv"] == "ref":
+        return _shape(x, {"k": "copy", "pl": rv["pl"]}, depth + 1)
+    if rv["rv"] == "aggregate":
+        return "%s(%s)" % (rv.get("variant") or rv.get("ak"), ",".join(_shape(x, o, depth + 1) for o in rv["ops"]))
+    return rv["rv"] + proj
+
+
+def r9(R):
+    prog = R.prog
+    pairs = 0
+    for k, b in sorted(prog.bodies.items()):
+        if b.crate != "shared" or not b.file.endswith("sdd.rs") or b.is_closure or "::tests::" in k or b.name.startswith("try_"):
+            continue
+        tw = [x for x in prog.bodies.values() if x.crate == "shared" and x.file.endswith("sdd.rs") and not x.is_closure and x.name == "try_" + b.name
+              and x.self_adt == b.self_adt and "::tests::" not in x.key]
+        if len(tw) != 1:
+            continue
+        t = tw[0]
+
+        def keys(x):
+            out = {}
+            for c in x.calls():
+                if c.name() not in ("get", "insert", "contains_key", "entry") or not c.args:
+                    continue
+                p0 = F.op_place(c.args[0])
+                if p0 is None:
+                    continue
+                # which cache field of self
+                root = x.origin(c.args[0], stop_named=False)
+                fld = None
+                cur = p0
+                for _ in range(4):
+                    fs = [e.get("n") for e in cur["p"] if e["k"] == "field"]
+                    if fs:
+                        fld = fs[-1]
+                        break
+                    ds = x.defs().get(cur["l"], [])
+                    if len(ds) != 1 or ds[0][0] != "assign" or ds[0][3]["rv"] != "ref":
+                        break
+                    cur = ds[0][3]["pl"]
+                if fld not in ("apply_cache", "negate_cache", "unique_table"):
+                    continue
+                if len(c.args) < 2:
+                    continue
+                out.setdefault(fld, set()).add(_shape(x, c.args[1]))
+            return out
+        kb, kt = keys(b), keys(t)
+        for fld in sorted(set(kb) & set(kt)):
+            pairs += 1
+            same = kb[fld] == kt[fld]
+            R.ob("C07-R9", "twin-keys:%s:%s" % (b.name, fld), "%s and %s build their %s keys alike" % (b.name, t.name, fld), same, where=t.where(),
+                 detail=None if same else "key shapes differ: %s has %s, %s has %s" % (b.name, sorted(kb[fld])[:3], t.name, sorted(kt[fld])[:3]))
+    R.floor("C07-R9", "(twin, cache) pairs compared", pairs, 2)
